@@ -196,8 +196,11 @@ Definition topfacts (st' : store) (c sid t p : nat) (r : out) : Prop :=
   f_spec (get st' c) = sid /\ f_target (get st' c) = t /\ f_up (get st' c) = p /\ f_nopy (get st' c) = false /\
   f_err (get st' c) = err_of r.
 
+(* the parent of an evaluation carries no error when it starts: every call site of the eager machine provides that — the owner of
+   a running loop has not failed, a chained step hangs under a step that finished successfully — and so the rule "a spec that fails
+   with the error its parent already carries is not another failure" (lazy streams, F43) never fires here *)
 Definition goodF (fuel : nat) : Prop := forall st p t s st' r,
-  tdepth s < fuel -> p < List.length st -> WF st -> glom_ fuel st p t s = (st', r) ->
+  tdepth s < fuel -> p < List.length st -> WF st -> f_err (get st p) = None -> glom_ fuel st p t s = (st', r) ->
   childstep st p st' r (snd (rawF fuel s t)) /\ r = fst (rawF fuel s t) /\ topfacts st' (List.length st) (sid_of s) t p r.
 
 (* how far the store has to be left alone for the recorded failed branches to keep their rendering: up to the last child when
@@ -345,10 +348,11 @@ Qed.
 
 (* the except arm, normalised: the walk function itself tests the NO_PYFRAME mark *)
 Lemma except_armF st2 p f (r2 : out) st' r :
-  1 <= List.length st2 ->
+  1 <= List.length st2 -> f_err (get st2 p) = None ->
   (match r2 with
    | Ret v => (st2, Ret v)
    | Exc e =>
+       if same_err (f_err (get st2 p)) e then (upd st2 f (set_err e), Exc e) else
        let st3 := upd st2 p (add_cerr f) in
        let st4 := upd st3 f (set_err e) in
        let st5 := if f_nopy (get st4 p) then nopy_walk (List.length st4) st4 p e else st4 in
@@ -356,9 +360,9 @@ Lemma except_armF st2 p f (r2 : out) st' r :
   r = r2 /\ st' = match r2 with Ret _ => st2
                   | Exc e => nopy_walk (List.length st2) (upd (upd st2 p (add_cerr f)) f (set_err e)) p e end.
 Proof.
-  intros Hl E. destruct r2 as [v|e].
+  intros Hl Hpe E. destruct r2 as [v|e].
   - injection E as <- <-. split; reflexivity.
-  - cbv zeta in E. rewrite !upd_length in E.
+  - rewrite Hpe in E. cbn [same_err] in E. cbv zeta in E. rewrite !upd_length in E.
     destruct (f_nopy (get (upd (upd st2 p (add_cerr f)) f (set_err e)) p)) eqn:Hn.
     + injection E as <- <-. split; reflexivity.
     + injection E as <- <-. split; [reflexivity|]. symmetry. apply walk_stop. exact Hn.
@@ -432,7 +436,8 @@ Lemma invF_step_glom fuel (IH : goodF fuel) base sid t p f st k lc fc b st_b r_b
        (match r_b with Ret _ => fc | Exc _ => fc ++ [List.length st] end).
 Proof.
   intros I Hd E.
-  destruct (IH st f t b st_b r_b Hd (j_len _ _ _ _ _ _ _ _ _ I) (j_wf _ _ _ _ _ _ _ _ _ I) E) as (Hcs & Hr & _).
+  assert (Hfe : f_err (get st f) = None) by (rewrite (j_f _ _ _ _ _ _ _ _ _ I); reflexivity).
+  destruct (IH st f t b st_b r_b Hd (j_len _ _ _ _ _ _ _ _ _ I) (j_wf _ _ _ _ _ _ _ _ _ I) Hfe E) as (Hcs & Hr & _).
   split; [exact Hr|]. apply (invF_step base sid t p f st k lc fc st_b r_b _ I Hcs).
 Qed.
 
@@ -523,16 +528,17 @@ Qed.
 Lemma chain_steps fuel (IH : goodF fuel) : forall steps st cur res st' r,
   steps <> [] -> (forall x, In x steps -> tdepth x < fuel) ->
   WF st -> cur < List.length st -> (forall n, f_last (get st cur) = Some n -> cur < n < List.length st) ->
+  f_err (get (fst (chain_child st cur)) (snd (chain_child st cur))) = None ->
   chain_loop (glom_ fuel) st cur res steps = (st', r) ->
   childstep (fst (chain_child st cur)) (snd (chain_child st cur)) st' r (snd (chain_raw (rawF fuel) res steps)) /\
   r = fst (chain_raw (rawF fuel) res steps).
 Proof.
-  induction steps as [|s steps IHs]; intros st cur res st' r Hne Hd W Hc Hl E; [congruence|].
+  induction steps as [|s steps IHs]; intros st cur res st' r Hne Hd W Hc Hl Hce E; [congruence|].
   destruct (chain_child_facts st cur W Hc Hl) as (Wm & Lm & Hp & Hcp).
   cbn [chain_loop] in E.
   destruct (chain_child st cur) as [stm parent] eqn:Ecc. cbn [fst snd] in *.
   destruct (glom_ fuel stm parent res s) as [st1 r1] eqn:E1.
-  destruct (IH stm parent res s st1 r1 (Hd s (or_introl eq_refl)) ltac:(lia) Wm E1) as (Hcs1 & Hr1 & Htop).
+  destruct (IH stm parent res s st1 r1 (Hd s (or_introl eq_refl)) ltac:(lia) Wm Hce E1) as (Hcs1 & Hr1 & Htop).
   destruct steps as [|s2 rest].
   - (* the last step *)
     cbn [chain_raw]. destruct r1 as [v|e]; cbn [chain_loop] in E; injection E as <- <-; split; assumption.
@@ -553,9 +559,12 @@ Proof.
     { rewrite Hsb1' by exact Hpc. apply get_upd_eq. unfold c1 in Hpc. exact Hpc. }
     assert (Hl1 : forall n, f_last (get st1 parent) = Some n -> parent < n < List.length st1).
     { intros n Hn. rewrite Hpar1 in Hn. cbn [set_last f_last] in Hn. injection Hn as <-. lia. }
-    specialize (IHs st1 parent v st' r ltac:(discriminate) (fun x Hx => Hd x (or_intror Hx)) W1 ltac:(lia) Hl1 E).
     assert (Ecc2 : chain_child st1 parent = (upd st1 c1 mark_chain, c1)).
     { unfold chain_child. rewrite Hpar1. reflexivity. }
+    assert (Hce2 : f_err (get (fst (chain_child st1 parent)) (snd (chain_child st1 parent))) = None).
+    { rewrite Ecc2. cbn [fst snd]. rewrite get_upd_eq by lia.
+      destruct Htop as (_ & _ & _ & _ & Ter). cbn [err_of] in Ter. destruct (get st1 c1); cbn in *. exact Ter. }
+    specialize (IHs st1 parent v st' r ltac:(discriminate) (fun x Hx => Hd x (or_intror Hx)) W1 ltac:(lia) Hl1 Hce2 E).
     rewrite Ecc2 in IHs. cbn [fst snd] in IHs.
     destruct (chain_raw (rawF fuel) v (s2 :: rest)) as [o2 body2]. cbn [fst snd] in IHs.
     destruct IHs as ((Hlen2 & W2 & Hsb2 & Hcl2 & Hrd2 & Herr2) & ->).
@@ -649,7 +658,9 @@ Proof.
   set (stm := upd st kf mark_chain) in *.
   assert (Wm : WF stm) by (unfold stm; apply WF_upd; [reflexivity|intros ->; lia|exact (j_wf _ _ _ _ _ _ _ _ _ I)]).
   assert (Lm : List.length stm = List.length st) by apply upd_length.
-  destruct (IH stm kf t v st' r Hd ltac:(lia) Wm E) as ((Hlen' & W' & Hsb & Hcl & Hrd & Herr) & Hr & _).
+  assert (Hke : f_err (get stm kf) = None).
+  { unfold stm. rewrite get_upd_eq by lia. destruct (get st kf); cbn in *. exact Ker. }
+  destruct (IH stm kf t v st' r Hd ltac:(lia) Wm Hke E) as ((Hlen' & W' & Hsb & Hcl & Hrd & Herr) & Hr & _).
   rewrite Lm in *. set (vf := List.length st) in *.
   split; [exact Hr|].
   destruct (get st kf) as [sp tg up la ce er np] eqn:G. cbn in Ksp, Ktg, Kup, Ker. subst sp tg up er.
@@ -743,7 +754,8 @@ Proof.
   - injection E as <- <-. exists k, lc, fc. split; [exact I|split; reflexivity].
   - destruct (Hd key v (or_introl eq_refl)) as [Hdk Hdv].
     destruct (glom_ fuel st f t key) as [st1 rb] eqn:Ek.
-    destruct (IH st f t key st1 rb Hdk (j_len _ _ _ _ _ _ _ _ _ I) (j_wf _ _ _ _ _ _ _ _ _ I) Ek) as (Hcs & Hr & Htop).
+    assert (Hfe : f_err (get st f) = None) by (rewrite (j_f _ _ _ _ _ _ _ _ _ I); reflexivity).
+    destruct (IH st f t key st1 rb Hdk (j_len _ _ _ _ _ _ _ _ _ I) (j_wf _ _ _ _ _ _ _ _ _ I) Hfe Ek) as (Hcs & Hr & Htop).
     pose proof (invF_step base sid t p f st k lc fc st1 rb _ I Hcs) as I1.
     destruct (rawF fuel key t) as [o rk]. cbn [fst snd] in *. subst o.
     destruct rb as [v0|e]; cbn [k_after] in I1.
@@ -770,7 +782,7 @@ Qed.
 
 Theorem all_goodF : forall fuel, goodF fuel.
 Proof.
-  induction fuel as [|fuel IH]; intros st p t s st' r Hd Hp W E; [lia|].
+  induction fuel as [|fuel IH]; intros st p t s st' r Hd Hp W Hpe E; [lia|].
   cbn [glom_] in E.
   set (f := List.length st) in *.
   set (st1 := upd (st ++ [new_frame s t p]) p (set_last f)) in *.
@@ -803,6 +815,7 @@ Proof.
              (match r2 with
               | Ret v => (st2, Ret v)
               | Exc e =>
+                  if same_err (f_err (get st2 p)) e then (upd st2 f (set_err e), Exc e) else
                   let st3 := upd st2 p (add_cerr f) in
                   let st4 := upd st3 f (set_err e) in
                   let st5 := if f_nopy (get st4 p) then nopy_walk (List.length st4) st4 p e else st4 in
@@ -811,7 +824,9 @@ Proof.
              childstep st p st' r (snd (rawF (S fuel) s t)) /\ r = fst (rawF (S fuel) s t) /\ topfacts st' f (sid_of s) t p r).
   { intros st2 r2 k lc fc I2 E2 Hraw.
     assert (L2 : 1 <= List.length st2) by (pose proof (j_len _ _ _ _ _ _ _ _ _ I2); lia).
-    destruct (except_armF st2 p f r2 st' r L2 E2) as [-> ->].
+    assert (Hpe2 : f_err (get st2 p) = None).
+    { rewrite (j_old _ _ _ _ _ _ _ _ _ I2 p Hp), Hp1. exact Hpe. }
+    destruct (except_armF st2 p f r2 st' r L2 Hpe2 E2) as [-> ->].
     rewrite Hraw. cbn [fst snd].
     destruct (finalizeF st1 (sid_of s) t p f st2 k lc fc st r2 I2 Hp eq_refl W Hp1 Ho1) as [A B].
     split; [exact A|]. split; [reflexivity|exact B]. }
@@ -835,8 +850,9 @@ Proof.
     + destruct (chain_loop (glom_ fuel) st1 f t (s0 :: rest)) as [st2 r2] eqn:Eb.
       assert (Hlast : forall m, f_last (get st1 f) = Some m -> f < m < List.length st1).
       { intros m Hm. rewrite Hf1 in Hm. discriminate Hm. }
-      destruct (chain_steps fuel IH (s0 :: rest) st1 f t st2 r2 ltac:(discriminate) Hdl W1 ltac:(lia) Hlast Eb) as [Hcs Hr2].
       assert (Ecc : chain_child st1 f = (st1, f)) by (unfold chain_child; rewrite Hf1; reflexivity).
+      assert (Hce : f_err (get (fst (chain_child st1 f)) (snd (chain_child st1 f))) = None) by (rewrite Ecc; cbn [fst snd]; rewrite Hf1; reflexivity).
+      destruct (chain_steps fuel IH (s0 :: rest) st1 f t st2 r2 ltac:(discriminate) Hdl W1 ltac:(lia) Hlast Hce Eb) as [Hcs Hr2].
       rewrite Ecc in Hcs. cbn [fst snd] in Hcs.
       pose proof (invF_step st1 n t p f st1 k0 None [] st2 r2 _ I0 Hcs) as I2.
       apply (Tail st2 r2 _ _ _ I2 E).
@@ -1353,7 +1369,7 @@ Theorem full_reading_lemma s :
 Proof.
   intros Hw. unfold run, expected.
   destruct (glom_ (S (tdepth s)) root_store 0 root_target s) as [st r] eqn:E.
-  destruct (all_goodF (S (tdepth s)) root_store 0 root_target s st r (Nat.lt_succ_diag_r _) (Nat.lt_0_succ _) WF_root E)
+  destruct (all_goodF (S (tdepth s)) root_store 0 root_target s st r (Nat.lt_succ_diag_r _) (Nat.lt_0_succ _) WF_root eq_refl E)
     as ((Hlen & _ & Hsb & _ & Hrd & _) & Hr & _).
   cbn [List.length root_store] in Hlen, Hsb, Hrd.
   destruct (all_sound2F (S (tdepth s)) s root_target (Nat.lt_succ_diag_r _) Hw) as (Ho & Hex).
